@@ -994,12 +994,14 @@ class Component(
             # Filled in by `_render_impl()`, so that we can clean up after a failed render
             render_state: Dict[str, Any] = {}
             try:
-                return self._render_impl(
+                output = self._render_impl(
                     context, args, kwargs, slots, escape_slots_content, type, render_dependencies, request, render_state
                 )
             except Exception as err:
                 _cleanup_failed_render(render_state)
                 raise err from None
+            _cleanup_unrendered_components(render_state)
+            return output
 
     def _render_impl(
         self,
@@ -1675,6 +1677,22 @@ def _cleanup_failed_render(render_state: Dict[str, Any]) -> None:
         component_renderer_cache.pop(render_id, None)
         child_component_attrs.pop(render_id, None)
         unregister_provide_reference(render_id)
+
+
+# A nested component is rendered only if its placeholder makes it into the output of its parent. If the
+# placeholder was discarded (e.g. the component was written inside a nested template like
+# `{% component "x" val="{% component 'child' / %}" / %}` and "x" does not print `val`), the nested component
+# is never rendered, and so its per-render entries would never be removed. So once the root component
+# has been rendered, we remove the entries of the nested components that are still around.
+def _cleanup_unrendered_components(render_state: Dict[str, Any]) -> None:
+    if render_state.get("parent_id", "") is not None:
+        return
+    for render_id in render_state["callbacks"].keys():
+        if render_id in component_context_cache:
+            component_context_cache.pop(render_id, None)
+            component_renderer_cache.pop(render_id, None)
+            child_component_attrs.pop(render_id, None)
+            unregister_provide_reference(render_id)
 
 
 @contextmanager
